@@ -31,8 +31,10 @@ def _public_path(ctx, pgns, db, rnd):
         if not db.is_complex(pgn):
             continue
         d = NMEA2000Decoder()
+        hist = []
         for x in pgncorr.match_payloads(db, pgn, rnd, 6):
             n += 1
+            hist.append(str(x))
             exp = spec_select(g, x)
             nb = max(1, (x.bit_length() + 7) // 8)
             line = "2024-01-01-00:00:00.000,6,%d,7,255,%d,%s" % (pgn, nb, ",".join("%02x" % b for b in x.to_bytes(nb, "little")))
@@ -42,7 +44,7 @@ def _public_path(ctx, pgns, db, rnd):
             except Exception:
                 continue          # the selected definition's decoder raised: which one was selected is not observable here
             if got != exp:
-                return {"pgn": pgn, "payload": x, "expected": exp, "got": got}, n
+                return {"pgn": pgn, "payload": x, "expected": exp, "got": got, "history": hist}, n
     return None, n
 
 
@@ -101,13 +103,27 @@ def search(ctx, broken, corr_broken):
     if hit:
         return [{"key": f"C08/selection-live-decoder/{hit['pgn']}/{hit['expected']}-vs-{hit['got']}",
                  "what": f"PGN {hit['pgn']} payload {hit['payload']} through a decoder that has seen other payloads of this PGN: database rule selects {hit['expected']}, the decoder returns {hit['got']}",
-                 "replay": {"kind": "selection-live", "pgn": hit["pgn"], "payload": str(hit["payload"]), "expected": hit["expected"]}}]
+                 "replay": {"kind": "selection-live", "pgn": hit["pgn"], "payload": str(hit["payload"]), "expected": hit["expected"], "history": hit["history"]}}]
     return []
 
 
 def replay(rp):
     if rp.get("kind") == "selection-live":
-        return False, rp["what"]
+        # re-run the history of payloads through one live decoder; the last one is the failing input
+        harness.load_repo()
+        from nmea2000.decoder import NMEA2000Decoder
+        d = NMEA2000Decoder()
+        got = "nothing fed"
+        for xs in rp.get("history") or [rp["payload"]]:
+            x = int(xs)
+            nb = max(1, (x.bit_length() + 7) // 8)
+            line = "2024-01-01-00:00:00.000,6,%d,7,255,%d,%s" % (rp["pgn"], nb, ",".join("%02x" % b for b in x.to_bytes(nb, "little")))
+            try:
+                m = d.decode_basic_string(line, True)
+                got = m.id if m is not None else None
+            except Exception as e:
+                got = f"raised {type(e).__name__}"
+        return got == rp["expected"], f"after {len(rp.get('history') or [])} payloads of PGN {rp['pgn']} through one decoder the last one returns {got}, the database rule selects {rp['expected']}"
     if rp.get("kind") != "selection":
         return False, "not an input replay: " + str(rp.get("broken_theorems") or rp.get("broken_correspondence"))[:500]
     harness.load_repo()
